@@ -280,7 +280,7 @@ impl Check for C06 {
 
     fn exec(&self, rc: &ReadCase, st: &mut Stats) -> Result<ExecOk, Fail> {
         let streaming = matches!(rc.driver, Driver::StreamingThenClose);
-        if rc.cfg.allow != 0 || (!rc.cfg.eof_end && !streaming) || (!streaming && !rc.script.pauses.is_empty()) {
+        if rc.cfg.allow != 0 || (!rc.cfg.eof_end && !streaming) || (streaming && rc.cfg.eof_end) || (!streaming && !rc.script.pauses.is_empty()) {
             st.inc("out_of_scope");
             return Ok(ExecOk { nontrivial: false });
         }
